@@ -27,6 +27,26 @@ def seti (a : List Int) (i : Int) (v : Int) : List Int := a.set i.toNat v
 /-- `len(a)` -/
 def leni (a : List Int) : Int := (a.length : Int)
 
+/-- `0 ≤ i < len(a)`: the access `a[i]` is in range (negative indices are not used by the kernels
+    except the literal `a[-1]`, which is `last`) -/
+def inb (a : List Int) (i : Int) : Bool := decide (0 ≤ i) && decide (i < (a.length : Int))
+
+/-- row access `m[i]` of a matrix, and its range check -/
+def getrow (m : List (List Int)) (i : Int) : List Int := m.getD i.toNat []
+def inbM (m : List (List Int)) (i : Int) : Bool := decide (0 ≤ i) && decide (i < (m.length : Int))
+
+/-- `a[-1]` -/
+def last (a : List Int) : Int := a.getLastD 0
+
+/-- `a[-1] = v` -/
+def setlast (a : List Int) (v : Int) : List Int := a.set (a.length - 1) v
+
+/-- insertion into a sorted list / `sorted(a)` -/
+def insertSorted (x : Int) : List Int → List Int
+  | [] => [x]
+  | y :: ys => if x ≤ y then x :: y :: ys else y :: insertSorted x ys
+def sorted (a : List Int) : List Int := a.foldr insertSorted []
+
 /-- truthiness of an integer (`while possible_steps:`) -/
 def truthy (x : Int) : Bool := x != 0
 
